@@ -101,6 +101,8 @@ func runGroup(t *testing.T, rep *ev.Report, preserve bool, pr peer, proto string
 		if prefill {
 			// the second pass also has injectors that produce nothing: one fails, one returns the empty string
 			so.Injectors = append(fingerproxy.DefaultHeaderInjectors(), failing{"X-Failing-FP", true}, failing{"X-Empty-FP", false})
+			// ... and the proxy server is given an http.Server of the caller's own after NewServer (library use)
+			so.OwnHTTPServer = true
 		}
 		st := bubble.NewStack(so)
 		defer st.Shutdown()
